@@ -62,6 +62,8 @@ impl FeoxStore {
         let mut cursor = self.tree.lower_bound(Bound::Included(start_key));
 
         while let Some(entry) = cursor {
+            #[cfg(feoxdb_verif)]
+            crate::verif::sched::point("range_step");
             if results.len() >= limit || entry.key().as_slice() > end_key {
                 break;
             }
